@@ -25,7 +25,7 @@ theorem abs_sub_sgnOf_le (y r : α) (hy : |y| ≤ 2 * r) :
 
 /-- for an arbitrary point with `|y_i| ≤ r`, the recovered digits are valid and the point of their
 offsets is `r / 2^k`-close to `y` in every coordinate -/
-theorem invDigits_close {n : Nat} (hn : 2 ≤ n ∧ n ≤ 5) : ∀ (k : Nat) (r : α) (s : St)
+theorem invDigits_close {n : Nat} (hn : Ev.DimOK n) : ∀ (k : Nat) (r : α) (s : St)
     (y : List α), 0 < r → Inv.Valid n s → y.length = n → (∀ yi ∈ y, |yi| ≤ r) →
     validDigits n (invDigits n k r s y) ∧
     ∀ (i : Nat) (h1 : i < y.length)
@@ -83,7 +83,7 @@ theorem invDigits_close {n : Nat} (hn : 2 ≤ n ∧ n ≤ 5) : ∀ (k : Nat) (r 
     exact this
 
 /-- `imageCube` at the left end of the subinterval of a valid digit list -/
-theorem imageCube_frac {n : Nat} (hn : 2 ≤ n ∧ n ≤ 5) (ds : List Nat) (hd : validDigits n ds) :
+theorem imageCube_frac {n : Nat} (hn : Ev.DimOK n) (ds : List Nat) (hd : validDigits n ds) :
     imageCube n ds.length ((indexOf n ds : α) / (2^n)^ds.length) =
       (cubeY n ds).map (fun (Y : Int) => (Y : α) / 2^(ds.length + 1)) := by
   have hB : (0 : α) < (2^n)^ds.length := by positivity
@@ -97,7 +97,7 @@ theorem imageCube_frac {n : Nat} (hn : 2 ≤ n ∧ n ≤ 5) (ds : List Nat) (hd 
 
 /-- (7): `imageCube (inverseCube y)` is the centre of a cell (that of the recovered digits) and is
 within half a cell width of `y` in every coordinate -/
-theorem image_inverse_cube {n : Nat} (hn : 2 ≤ n ∧ n ≤ 5) (m : Nat) (y : List α)
+theorem image_inverse_cube {n : Nat} (hn : Ev.DimOK n) (m : Nat) (y : List α)
     (hy : y.length = n) (hb : ∀ yi ∈ y, |yi| ≤ 1 / 2) :
     ∃ ds : List Nat, validDigits n ds ∧ ds.length = m ∧
       inverseCube n m y = (indexOf n ds : α) / (2^n)^m ∧
@@ -105,11 +105,11 @@ theorem image_inverse_cube {n : Nat} (hn : 2 ≤ n ∧ n ≤ 5) (m : Nat) (y : L
       (imageCube n m (inverseCube n m y)).length = n ∧
       ∀ (i : Nat) (h1 : i < y.length) (h2 : i < (imageCube n m (inverseCube n m y)).length),
         |y[i] - (imageCube n m (inverseCube n m y))[i]| ≤ 1 / 2^(m+1) := by
-  have hv := Inv.valid_init n (by omega)
+  have hv := Inv.valid_init n hn.pos
   obtain ⟨hd, hc⟩ := invDigits_close hn m (1 / 2 : α) (St.init n) y (by positivity) hv hy hb
   have hlen := length_invDigits (α := α) n m (1 / 2) (St.init n) y
   have hn1 : (n == 1) = false := by
-    rw [beq_eq_false_iff_ne]; omega
+    rw [beq_eq_false_iff_ne]; exact hn.ne_one
   have hinv : inverseCube n m y =
       (indexOf n (invDigits n m (1 / 2 : α) (St.init n) y) : α) / (2^n)^m := by
     simp only [inverseCube, hn1, Bool.false_eq_true, if_false]
